@@ -109,6 +109,27 @@ def history(draw, tier="quick", jumps=False):
     return {"clock": clock, "base": base, "T0": T0, "ppf": ppf, "tick": tick, "events": events}
 
 
+NTPS = [0, 1, 0xFFFF, 0x10000, 0x83AA7E8000000000, 0xE000000012345678, 2**64 - 1, 2**48 - 1]
+WALL_STEPS = [-0.001, -30.0, -86400.0, -4e9, 0.5, 3600.0, 70000.0, 4e9]  # seconds by which the wall clock is stepped (NTP corrections)
+
+
+@st.composite
+def history_rr(draw, tier="quick"):
+    """For the real receiver: the history plus sender reports arriving for the stream (any NTP timestamp) and steps of the
+    wall clock in either direction - LSR and DLSR are fields of the report too."""
+    case = draw(history(tier))
+    extra = []
+    for _ in range(draw(st.integers(0, 4))):
+        if draw(st.booleans()):
+            extra.append(["s", draw(st.integers(0, len(NTPS) - 1)), draw(st.sampled_from([0, 20, 400]))])
+        else:
+            extra.append(["j", draw(st.integers(0, len(WALL_STEPS) - 1)), 0])
+    ev = case["events"]
+    for e in extra:
+        ev.insert(draw(st.integers(1, len(ev))), e)
+    return case
+
+
 def stamp(case: dict, u: int) -> int:
     return case["T0"] + ((u + 1000) // case["ppf"]) * case["tick"]
 
@@ -120,7 +141,9 @@ def valid(case: dict) -> bool:
         return False
     hi = None
     for ev in case["events"]:
-        if len(ev) < 2 or ev[0] not in ("p", "r") or not isinstance(ev[-1], int) or ev[-1] < 0:
+        if len(ev) < 2 or ev[0] not in ("p", "r", "s", "j") or not isinstance(ev[-1], int) or ev[-1] < 0:
+            return False
+        if ev[0] in ("s", "j") and (len(ev) != 3 or not isinstance(ev[1], int)):
             return False
         if ev[0] == "p":
             if len(ev) != 3 or not isinstance(ev[1], int):
@@ -273,6 +296,14 @@ def run_receiver(case: dict) -> Outcome:
                                 result["err"] = (f"RR on the wire: {key} = {getattr(rep, key)}, RFC 3550 reference = {w}", "rr-" + key)
                                 return
 
+        inner_on_rtcp = on_rtcp
+        last_rr = {"t": None}
+
+        def on_rtcp(data: bytes) -> None:  # noqa: F811
+            if any(isinstance(p, R.RtcpRrPacket) and p.reports for p in R.RtcpPacket.parse(data)):
+                last_rr["t"] = loop.time()
+            inner_on_rtcp(data)
+
         transport.on_rtcp = on_rtcp
         rx = RX.RTCRtpReceiver(kind, transport)
         rx._track = RX.RemoteStreamTrack(kind=kind)
@@ -294,20 +325,38 @@ def run_receiver(case: dict) -> Outcome:
                     pkt = R.RtpPacket(payload_type=codec.payloadType, sequence_number=U & 0xFFFF, timestamp=T & 0xFFFFFFFF,
                                       ssrc=ssrc, payload=b"\x10\x00abc" if kind == "video" else b"abc")
                     await rx._handle_rtp_packet(pkt, arrival_time_ms=int(loop.time() * 1000))
-                    model.add(U, T, loop.wall())
+                    model.add(U, T, loop.wall() + wall_offset[0])
                     state["have"] = True
+                elif ev[0] == "s":
+                    result["classes"].add("sender-report")
+                    await rx._handle_rtcp_packet(R.RtcpSrPacket(ssrc=ssrc, sender_info=R.RtcpSenderInfo(
+                        ntp_timestamp=NTPS[ev[1] % len(NTPS)], rtp_timestamp=0, packet_count=0, octet_count=0)))
+                elif ev[0] == "j":
+                    result["classes"].add("wall-clock-step")
+                    wall_offset[0] += WALL_STEPS[ev[1] % len(WALL_STEPS)]
+                    state["exact"] = False  # (the arrival clock jumped: jitter is outside the exact-comparison precondition)
+                    await asyncio.sleep(1.6)
                 else:
                     await asyncio.sleep(1.6)  # lets at least one RR interval elapse
                 if result["err"]:
                     break
             await asyncio.sleep(2.0)
+            # "building and sending a receiver report never fails": reports keep coming (one per 0.5-1.5 s)
+            if state["have"] and result["err"] is None and (last_rr["t"] is None or loop.time() - last_rr["t"] > 1.9):
+                result["err"] = (f"no receiver report was sent during the last {loop.time() - (last_rr['t'] or 0):.1f} s "
+                                 f"(the report interval is 0.5-1.5 s)", "rr-stopped")
         finally:
-            await rx.stop()
+            try:
+                await asyncio.wait_for(rx.stop(), 20)
+            except asyncio.TimeoutError:
+                if result["err"] is None:
+                    result["err"] = ("receiver.stop() did not return within 20 s (its RTCP task is gone)", "rr-stop-hangs")
         if loop.logged_errors and result["err"] is None:
             e = loop.logged_errors[0]
             result["err"] = (f"error in receiver task: {e['message']} {e['exception']}", "rr-task-error")
 
-    shim = TimeShim(lambda: asyncio.get_event_loop().wall())
+    wall_offset = [0.0]
+    shim = TimeShim(lambda: asyncio.get_event_loop().wall() + wall_offset[0])
     try:
         with patched(RX, time=shim, random=RandomShim([0.1, 0.9, 0.5, 0.0, 0.99]), decoder_worker=tap_worker):
             vloop.run_sim(main, max_iterations=400000, cpu_seconds=60)
@@ -319,7 +368,7 @@ def run_receiver(case: dict) -> Outcome:
         return Outcome(result["err"][0], result["err"][1], True)
     us = [case["base"] + e[1] for e in case["events"] if e[0] == "p" and case["base"] + e[1] >= 0]
     cyc = bool(us) and (min(us) >> 16) != (max(us) >> 16)
-    return Outcome(None, None, result["reports"] > 0 and cyc, ("seq-cycle",) if cyc else ())
+    return Outcome(None, None, result["reports"] > 0 and cyc, tuple(sorted(result["classes"] | ({"seq-cycle"} if cyc else set()))))
 
 
 CHECK = Check(
@@ -338,7 +387,7 @@ CHECK = Check(
     families=[
         Family("statistics", run_stats, lambda tier: history(tier), quick=5000, thorough=250000),
         Family("clock-jump", run_stats, lambda tier: history(tier, jumps=True), quick=1500, thorough=50000),
-        Family("receiver-rr", run_receiver, lambda tier: history(tier), quick=400, thorough=15000, min_shard=10),
+        Family("receiver-rr", run_receiver, lambda tier: history_rr(tier), quick=600, thorough=15000, min_shard=10),
     ],
     floor=300,
     assumptions=["the arrival clock is the patched time.time() of aiortc.rtcrtpreceiver; arrival ticks = int(time * clockrate)",
